@@ -1,0 +1,65 @@
+//go:build verif
+
+// Contracts for the verification machinery in /verif (comment-only; no declarations).
+//
+// C02 (fidelity part for the private-network layer): pskConn XORs exactly the bytes that travel - on the read side
+// the n bytes the connection delivered, in place, on the write side all of `in` into a private buffer that is then
+// sent - so the keystream position of each direction advances in lock step with the bytes of that direction
+// (after the 24-byte nonce that opens it), and the caller's slice is never modified by Write.
+//
+// The XSalsa20 stream is abstract (specs/stdlib.spec, specs/libp2p.spec): ghost.kspos(s) = keystream bytes used so
+// far, xorks(s, k, x) = byte x combined with keystream byte k of s; kskey/ksnonce = what the stream was created
+// from; instream/outstream name the bytes of the underlying connection by position.
+
+package pnet
+
+//@ func (c *pskConn) Read
+//@ prop C02
+// the stream is created once, from the PSK and the first 24 bytes of the connection
+//@ ensures old(c.readS20) != nil ==> c.readS20 == old(c.readS20)
+//@ ensures c.readS20 == nil ==> result0 == 0 && result1 != nil
+//@ ensures old(c.readS20) == nil && c.readS20 != nil ==> fresh(c.readS20) && kskey(c.readS20) == c.psk &&
+//@         (forall i int :: 0 <= i && i < 24 ==> ksnonce(c.readS20, i) == instream(c.Conn, old(ghost.consumed(c.Conn)) + i))
+// lock step: keystream and connection advance by exactly the number of bytes returned
+//@ ensures c.readS20 != nil ==> 0 <= result0 && result0 <= len(out)
+//@ ensures old(c.readS20) != nil ==> ghost.kspos(c.readS20) == old(ghost.kspos(c.readS20)) + result0 &&
+//@         ghost.consumed(c.Conn) == old(ghost.consumed(c.Conn)) + result0
+//@ ensures old(c.readS20) == nil && c.readS20 != nil ==> ghost.kspos(c.readS20) == result0 &&
+//@         ghost.consumed(c.Conn) == old(ghost.consumed(c.Conn)) + 24 + result0
+// fidelity: byte i handed to the caller is wire byte i of this read combined with the keystream byte of the same
+// offset - each wire byte is decrypted exactly once, in place, including when the connection also reports an error
+//@ ensures c.readS20 != nil ==> forall i int :: 0 <= i && i < result0 ==>
+//@         out[i] == xorks(c.readS20, ghost.kspos(c.readS20) - result0 + i, instream(c.Conn, ghost.consumed(c.Conn) - result0 + i))
+//@ ensures c.readS20 != nil ==> called(Read, 0) && result1 == ret(Read, 0, 1)
+//@ modifies c.readS20, elems(out), ghost.consumed(c.Conn), ghost.kspos(c.readS20)
+
+//@ func (c *pskConn) Write
+//@ prop C02
+//@ ensures old(c.writeS20) != nil ==> c.writeS20 == old(c.writeS20)
+//@ ensures c.writeS20 == nil ==> result0 == 0 && result1 != nil
+// a new stream: its nonce is the first 24 bytes put on the wire
+//@ ensures old(c.writeS20) == nil && c.writeS20 != nil ==> fresh(c.writeS20) && kskey(c.writeS20) == c.psk &&
+//@         (forall i int :: 0 <= i && i < 24 ==> ksnonce(c.writeS20, i) == outstream(c.Conn, old(ghost.produced(c.Conn)) + i))
+//@ ensures c.writeS20 != nil ==> 0 <= result0 && result0 <= len(in) && (result1 == nil ==> result0 == len(in))
+// all of `in` is encrypted, once, at consecutive keystream positions
+//@ ensures old(c.writeS20) != nil ==> ghost.kspos(c.writeS20) == old(ghost.kspos(c.writeS20)) + len(in) &&
+//@         ghost.produced(c.Conn) == old(ghost.produced(c.Conn)) + result0
+//@ ensures old(c.writeS20) == nil && c.writeS20 != nil ==> ghost.kspos(c.writeS20) == len(in) &&
+//@         ghost.produced(c.Conn) == old(ghost.produced(c.Conn)) + 24 + result0
+// NOTE (reported finding, deliberately not a clause): on a SHORT write (result0 < len(in), result1 != nil) the keystream
+// has advanced by len(in) but only result0 bytes are on the wire, i.e. the unconditional lock-step clause
+//     old(c.writeS20) != nil ==> ghost.kspos(c.writeS20) - old(ghost.kspos(c.writeS20)) == ghost.produced(c.Conn) - old(ghost.produced(c.Conn))
+// does NOT hold for this code (obligation Write/post fails); a caller that continues after the partial write desynchronises
+// the stream. Lock step is therefore stated for complete writes only (result1 == nil ==> result0 == len(in) above).
+// fidelity: wire byte i of this write is in[i] combined with the keystream byte of the same offset
+//@ ensures c.writeS20 != nil ==> forall i int :: 0 <= i && i < result0 ==>
+//@         outstream(c.Conn, ghost.produced(c.Conn) - result0 + i) == xorks(c.writeS20, ghost.kspos(c.writeS20) - len(in) + i, in[i])
+// the caller's slice is not modified (encryption goes to a pool buffer)
+//@ ensures forall i int :: 0 <= i && i < len(in) ==> in[i] == old(in[i])
+//@ modifies c.writeS20, ghost.produced(c.Conn), ghost.kspos(c.writeS20)
+
+//@ func newPSKConn
+//@ prop C02
+//@ ensures result1 == nil ==> insecure != nil && psk != nil && result0 != nil && fresh(result0)
+//@ ensures result1 != nil ==> result0 == nil
+//@ modifies nothing
